@@ -1294,6 +1294,18 @@ func (a *algo) assign(x *ast.AssignStmt, env aenv, cont func(aenv) string) strin
 		}
 		return fmt.Sprintf("let f : FileS := { f with %s := AList.insert f.%s %s %s };\n", ff.lean, ff.lean, k, v) + cont(env)
 	}
+	if sel, ok := l.(*ast.SelectorExpr); ok && nodeStr(sel.X) == "f" && x.Tok == token.ASSIGN {
+		// f.field = e   (e.g. f.headers = append(f.headers, comment))
+		ff, ok := fileFields[sel.Sel.Name]
+		if !ok || ff.t == tMapDef {
+			bail("store into %s", nodeStr(l))
+		}
+		v, vt := a.expr(r, env)
+		if vt != ff.t {
+			bail("store %s", nodeStr(x))
+		}
+		return fmt.Sprintf("let f : FileS := { f with %s := %s };\n", ff.lean, v) + cont(env)
+	}
 	bail("assignment target %s", nodeStr(l))
 	return ""
 }
@@ -1800,6 +1812,10 @@ func (a *algo) translate(key string) {
 		a.translateTokenRender(key)
 		return
 	}
+	if isCtorTarget(key) {
+		a.translateCtor(key)
+		return
+	}
 	env := aenv{}
 	var params []string
 	if d.Recv != nil && len(d.Recv.List) == 1 {
@@ -1925,6 +1941,8 @@ func indent(s string) string {
 // the functions of the import registry, in the order a reader expects
 var algoTargets = []string{".IsReservedWord", "File.isLocal", "File.isValidAlias", "File.isDotImport", "File.prefixed", ".guessAlias",
 	"File.register", "File.Anon", "File.ImportName", "File.ImportNames", "File.ImportAlias",
+	// constructors and the remaining setters of File (algo_ctor.go)
+	".NewFile", ".NewFilePath", ".NewFilePathName", "File.HeaderComment", "File.PackageComment", "File.CgoPreamble",
 	// text-producing functions without recursion through Code (tie 1b, second group)
 	"comment.render", "tag.isNull", "tag.render", "File.renderImports",
 	// null-ness (open recursion through the Code interface: `recNull`)
